@@ -76,8 +76,11 @@ def st_raw_pattern():
         fspec_v = st.fixed_dictionaries({"name": st.sampled_from(ALL_FIELDS + ["nosuch"]),
                                          "val": st.one_of(st.none(), value), "cap": cap})
         fspec_s = st.fixed_dictionaries({"name": st.sampled_from(SEQ_OK_FIELDS), "val": seq, "cap": cap})
+        # `[]` on any field: it is the empty tuple only, not "anything of length 0" (an empty string, b"", ...)
+        fspec_e = st.fixed_dictionaries({"name": st.sampled_from(ALL_FIELDS),
+                                         "val": st.just({"t": "seq", "items": [], "tail": None}), "cap": cap})
         return st.fixed_dictionaries({"t": st.just("tree"), "classes": cls,
-                                      "fields": st.lists(st.one_of(fspec_v, fspec_v, fspec_s), max_size=4)})
+                                      "fields": st.lists(st.one_of(fspec_v, fspec_s, fspec_e), max_size=4)})
 
     leaf_tree = st.fixed_dictionaries({"t": st.just("tree"), "classes": cls, "fields": st.just([])})
     return st.recursive(leaf_tree, extend, max_leaves=6)
@@ -260,8 +263,11 @@ class Abstractor:
             if not d.chance(2, 3):
                 continue
             v = getattr(node, fn)
-            if isinstance(v, str) and d.chance(1, 2):
-                val: Any = {"t": "re", "rx": _rx_for(v, d)}
+            if isinstance(v, (str, bytes)) and len(v) == 0 and d.chance(1, 2):
+                # an empty string is no empty tuple: `[]` must not match it
+                val: Any = {"t": "seq", "items": [], "tail": None}
+            elif isinstance(v, str) and d.chance(1, 2):
+                val = {"t": "re", "rx": _rx_for(v, d)}
             elif isinstance(v, (frozenset,)):
                 val = None
             else:
